@@ -965,3 +965,110 @@ contract(
     note='positional-only / variadic name -> AttributeError; else the stored value; else ValueError for a '
          'dataclass default_factory field; else the default; else AttributeError; nothing is modified',
 )
+
+
+# --- _compare_buildable, value level (check_dag=False) (C06, C17) -----------------------------------
+from pyvc.expr import user_eq, dkeys_pos   # noqa: E402
+
+cmp_rec = z3.Function('cmp_rec', I, I, B)    # result of the recursive comparison of two Buildables
+
+contract('config._compare_buildable#rec', F, '_compare_buildable', abstract=True,
+         params=['x', 'y', 'check_dag'],
+         requires=lambda c: z3.And(isref(c.old, c['x'], 'Buildable'), isref(c.old, c['y'], 'Buildable')),
+         ensures=lambda c: c.result == VBool(cmp_rec(ref(c['x']), ref(c['y']))),
+         allocates=True,
+         note='assumed at the recursive call site: the comparison of two nested Buildables is a '
+              'boolean function of the two objects (its own contract is this one, one level down)')
+
+
+def eqv(h, a, b):
+  """`a == b` as the engine evaluates it (see ExprMixin.py_eq): numbers by value, _Placeholder by
+  index, other objects by identity or the (assumed pure) user-defined __eq__."""
+  ra, rb = ref(a), ref(b)
+  both_ph = z3.And(cls_is(h.cls(ra), '_Placeholder'), cls_is(h.cls(rb), '_Placeholder'))
+  ref_eq = z3.If(both_ph, h.fld(ra, 'index') == h.fld(rb, 'index'), z3.Or(ra == rb, user_eq(ra, rb)))
+  intlike = lambda v: z3.Or(is_VInt(v), is_VBool(v))
+  int_of = lambda v: z3.If(is_VBool(v), z3.If(bval(v), z3.IntVal(1), z3.IntVal(0)), ival(v))
+  return z3.If(z3.And(intlike(a), intlike(b)), int_of(a) == int_of(b),
+               z3.If(z3.And(is_VRef(a), is_VRef(b)), ref_eq, a == b))
+
+
+def dflt_present(g, k):
+  si, i = sig_idx(g, sval(k)), ival(k)
+  return z3.If(is_VStr(k), z3.And(si >= 0, sig_hasdef(g, si)), z3.And(i < sig_npos(g), sig_hasdef(g, i)))
+
+
+def dflt_value(g, k):
+  return z3.If(is_VStr(k), sig_dflt(g, sig_idx(g, sval(k))), sig_dflt(g, ival(k)))
+
+
+def _cmp_terms(c):
+  h0 = c.old
+  x, y = c['x'], c['y']
+  gx, gy = bsig(h0, x), bsig(h0, y)
+  Ax, Ay = ref(bfields(h0, x)[1]), ref(bfields(h0, y)[1])
+  return h0, x, y, gx, gy, h0.hasarr(Ax), h0.valarr(Ax), h0.hasarr(Ay), h0.valarr(Ay)
+
+
+def cmp_key_ok(c, k):
+  """Key k compares equal: both sides have a value or a default, and the two are equal."""
+  h0, x, y, gx, gy, hx, vx, hy, vy = _cmp_terms(c)
+  v1 = z3.If(hx[k], vx[k], dflt_value(gx, k))
+  v2 = z3.If(hy[k], vy[k], dflt_value(gy, k))
+  bothb = z3.And(isref(h0, v1, 'Buildable'), isref(h0, v2, 'Buildable'))
+  return z3.And(z3.Or(hx[k], dflt_present(gx, k)), z3.Or(hy[k], dflt_present(gy, k)),
+                z3.Implies(bothb, cmp_rec(ref(v1), ref(v2))),
+                eqv(h0, v1, v2))
+
+
+def _cmp_req(c):
+  h = c.old
+  return z3.And(BInv(h, c['x']), isref(h, c['y'], 'Buildable'), BInv(h, c['y']),
+                c['check_dag'] == VBool(z3.BoolVal(False)))
+
+
+def _cmp_head(c):
+  h0, x, y, gx, gy, hx, vx, hy, vy = _cmp_terms(c)
+  return z3.And(h0.cls(ref(x)) == h0.cls(ref(y)),
+                eqv(h0, h0.fld(ref(x), '__fn_or_cls__'), h0.fld(ref(y), '__fn_or_cls__')))
+
+
+def _cmp_hvk_differs(c):
+  h0, x, y, gx, gy, hx, vx, hy, vy = _cmp_terms(c)
+  return z3.And(_cmp_head(c), z3.Not(eqv(h0, hvk_val(gx), hvk_val(gy))))
+
+
+def _cmp_post(c):
+  h0, x, y, gx, gy, hx, vx, hy, vy = _cmp_terms(c)
+  k = z3.Const('cmp_k', Val)
+  spec = z3.And(_cmp_head(c),
+                FA([k], z3.Implies(z3.Or(hx[k], hy[k]), cmp_key_ok(c, k)), patterns=[hx[k], hy[k]]))
+  return c.result == VBool(spec)
+
+
+def _cmp_inv(c):
+  h0, x, y, gx, gy, hx, vx, hy, vy = _cmp_terms(c)
+  k = z3.Const('cmp_k', Val)
+  U = c.view.has        # members of set(x.__arguments__) | set(y.__arguments__)
+  return z3.And(
+      0 <= c.k, c.v('x') == x, c.v('y') == y, c.v('check_dag') == c['check_dag'],
+      _cmp_head(c),
+      is_VRef(c.v('missing')), ref(c.v('missing')) >= h0.alloc,
+      FA([k], U[k] == z3.Or(hx[k], hy[k]), patterns=[U[k]]),
+      FA([k], z3.Implies(z3.And(U[k], dkeys_pos(U, k) < c.k), cmp_key_ok(c, k)),
+         patterns=[dkeys_pos(U, k)]))
+
+
+contract(
+    'config._compare_buildable', F, '_compare_buildable',
+    requires=_cmp_req, ensures=_cmp_post,
+    raises={'AssertionError': _cmp_hvk_differs},
+    calls={'_compare_buildable': 'config._compare_buildable#rec'},
+    loops={0: Loop(_cmp_inv, mod=lambda c: [], fields=[])},
+    props=('C06', 'C17'),
+    note='value-level comparison (check_dag=False: the recursive use, and the first phase of ==): '
+         'True iff same Buildable class, equal callables, and for every key set on either side both '
+         'sides have a value or a signature default and the two are equal (nested Buildables: the '
+         'recursive comparison and ==); never raises except the internal has_var_keyword assertion; '
+         'modifies nothing (frame).  The DAG phase (check_dag=True) is decided by the bounded layer',
+)
